@@ -49,6 +49,10 @@ pub trait BK: Sized + Clone + PartialEq + Hash + Encode + Decode + serde::Serial
     fn kind() -> Kind;
     fn new_n(n: usize) -> Result<Self, ()>;
     fn from_bytes_(b: &[u8]) -> Result<Self, ()>;
+    /// the same through a heap-backed (spilled) small-vector: storage mode is not part of the value
+    fn from_bytes_heap_(b: &[u8]) -> Result<Self, ()> {
+        Self::from_bytes_(b)
+    }
     fn into_bytes_(self) -> Vec<u8>;
     fn union_(&self, o: &Self) -> Result<Self, ()>;
     fn inter_(&self, o: &Self) -> Result<Self, ()>;
@@ -126,6 +130,11 @@ impl<N: Unsigned + Clone> BK for BitList<N> {
     fn from_bytes_(b: &[u8]) -> Result<Self, ()> {
         Self::from_bytes(SmallVec::from_slice(b)).map_err(|_| ())
     }
+    fn from_bytes_heap_(b: &[u8]) -> Result<Self, ()> {
+        let mut v: Vec<u8> = Vec::with_capacity(b.len() + 300);
+        v.extend_from_slice(b);
+        Self::from_bytes(SmallVec::from_vec(v)).map_err(|_| ())
+    }
     fn into_bytes_(self) -> Vec<u8> {
         self.into_bytes().to_vec()
     }
@@ -153,6 +162,11 @@ impl<N: Unsigned + Clone> BK for BitVector<N> {
     }
     fn from_bytes_(b: &[u8]) -> Result<Self, ()> {
         Self::from_bytes(SmallVec::from_slice(b)).map_err(|_| ())
+    }
+    fn from_bytes_heap_(b: &[u8]) -> Result<Self, ()> {
+        let mut v: Vec<u8> = Vec::with_capacity(b.len() + 300);
+        v.extend_from_slice(b);
+        Self::from_bytes(SmallVec::from_vec(v)).map_err(|_| ())
     }
     fn into_bytes_(self) -> Vec<u8> {
         self.into_bytes().to_vec()
@@ -283,6 +297,17 @@ fn gen_ops(g: &mut Rng, kind: Kind, n_ops: usize) -> Vec<String> {
     };
     for step in 0..n_ops {
         let have = pool_lens.len();
+        if have > 0 && g.below(12) == 0 {
+            // a value decoded from bytes (every second one through a heap-backed small-vector)
+            let l = match kind { Kind::V(n) => g.below(n.min(40) + 1), Kind::F(n) => n, Kind::D => 8 * (1 + g.below(3)) };
+            if l <= 4200 {
+                let bits: Vec<bool> = (0..l).map(|_| g.bool()).collect();
+                let enc = spec_enc(kind, &bits);
+                ops.push(format!("from {}", hex(&enc)));
+                pool_lens.push(l);
+                continue;
+            }
+        }
         let choice = if have == 0 || (have < 3 && step < 4) { g.below(2) } else { 2 + g.below(14) };
         match choice {
             0 => {
@@ -425,7 +450,8 @@ fn run_history<B: BK>(ctx: &mut Ctx, ops: &[String]) {
             }
             "from" => {
                 let b = crate::model::unhex(f[1]);
-                match catch_unwind(AssertUnwindSafe(|| B::from_bytes_(&b))) {
+                let heap = step % 2 == 1;
+                match catch_unwind(AssertUnwindSafe(|| if heap { B::from_bytes_heap_(&b) } else { B::from_bytes_(&b) })) {
                     Ok(Ok(x)) => {
                         let o = impl_obs(&x);
                         let bits = x.bits_();
@@ -929,6 +955,51 @@ pub fn run_bit_extremes(ctx: &mut Ctx) {
 // ---------------------------------------------------------------------------------------------
 // serde (C18)
 
+/// a serializer that is NOT human readable and records what it is given (the serde form must not depend on it)
+pub struct Rec(pub Option<String>);
+#[derive(Debug)]
+pub struct RecErr(String);
+impl std::fmt::Display for RecErr {
+    fn fmt(&self, f: &mut std::fmt::Formatter<'_>) -> std::fmt::Result { write!(f, "{}", self.0) }
+}
+impl std::error::Error for RecErr {}
+impl serde::ser::Error for RecErr {
+    fn custom<T: std::fmt::Display>(m: T) -> Self { RecErr(m.to_string()) }
+}
+macro_rules! rec_unsupported {
+    ($($name:ident($t:ty)),*) => { $(fn $name(self, _v: $t) -> Result<(), RecErr> { self.0 = Some(format!("<{}>", stringify!($name))); Ok(()) })* };
+}
+impl<'a> serde::Serializer for &'a mut Rec {
+    type Ok = ();
+    type Error = RecErr;
+    type SerializeSeq = serde::ser::Impossible<(), RecErr>;
+    type SerializeTuple = serde::ser::Impossible<(), RecErr>;
+    type SerializeTupleStruct = serde::ser::Impossible<(), RecErr>;
+    type SerializeTupleVariant = serde::ser::Impossible<(), RecErr>;
+    type SerializeMap = serde::ser::Impossible<(), RecErr>;
+    type SerializeStruct = serde::ser::Impossible<(), RecErr>;
+    type SerializeStructVariant = serde::ser::Impossible<(), RecErr>;
+    fn is_human_readable(&self) -> bool { false }
+    fn serialize_str(self, v: &str) -> Result<(), RecErr> { self.0 = Some(v.to_string()); Ok(()) }
+    fn serialize_bytes(self, v: &[u8]) -> Result<(), RecErr> { self.0 = Some(format!("<bytes {}>", hex(v))); Ok(()) }
+    rec_unsupported!(serialize_bool(bool), serialize_i8(i8), serialize_i16(i16), serialize_i32(i32), serialize_i64(i64),
+        serialize_u8(u8), serialize_u16(u16), serialize_u32(u32), serialize_u64(u64), serialize_f32(f32), serialize_f64(f64), serialize_char(char));
+    fn serialize_none(self) -> Result<(), RecErr> { self.0 = Some("<none>".into()); Ok(()) }
+    fn serialize_some<T: ?Sized + serde::Serialize>(self, _v: &T) -> Result<(), RecErr> { self.0 = Some("<some>".into()); Ok(()) }
+    fn serialize_unit(self) -> Result<(), RecErr> { self.0 = Some("<unit>".into()); Ok(()) }
+    fn serialize_unit_struct(self, _n: &'static str) -> Result<(), RecErr> { self.0 = Some("<unit_struct>".into()); Ok(()) }
+    fn serialize_unit_variant(self, _n: &'static str, _i: u32, _v: &'static str) -> Result<(), RecErr> { self.0 = Some("<unit_variant>".into()); Ok(()) }
+    fn serialize_newtype_struct<T: ?Sized + serde::Serialize>(self, _n: &'static str, _v: &T) -> Result<(), RecErr> { self.0 = Some("<newtype>".into()); Ok(()) }
+    fn serialize_newtype_variant<T: ?Sized + serde::Serialize>(self, _n: &'static str, _i: u32, _v: &'static str, _x: &T) -> Result<(), RecErr> { self.0 = Some("<newtype_variant>".into()); Ok(()) }
+    fn serialize_seq(self, _l: Option<usize>) -> Result<Self::SerializeSeq, RecErr> { Err(RecErr("seq".into())) }
+    fn serialize_tuple(self, _l: usize) -> Result<Self::SerializeTuple, RecErr> { Err(RecErr("tuple".into())) }
+    fn serialize_tuple_struct(self, _n: &'static str, _l: usize) -> Result<Self::SerializeTupleStruct, RecErr> { Err(RecErr("tuple_struct".into())) }
+    fn serialize_tuple_variant(self, _n: &'static str, _i: u32, _v: &'static str, _l: usize) -> Result<Self::SerializeTupleVariant, RecErr> { Err(RecErr("tuple_variant".into())) }
+    fn serialize_map(self, _l: Option<usize>) -> Result<Self::SerializeMap, RecErr> { Err(RecErr("map".into())) }
+    fn serialize_struct(self, _n: &'static str, _l: usize) -> Result<Self::SerializeStruct, RecErr> { Err(RecErr("struct".into())) }
+    fn serialize_struct_variant(self, _n: &'static str, _i: u32, _v: &'static str, _l: usize) -> Result<Self::SerializeStructVariant, RecErr> { Err(RecErr("struct_variant".into())) }
+}
+
 pub fn run_serde<B: BK>(ctx: &mut Ctx) {
     let kind = B::kind();
     let ks = kind.s();
@@ -965,6 +1036,16 @@ pub fn run_serde<B: BK>(ctx: &mut Ctx) {
         if let Ok(Ok(serde_json::Value::String(st))) = &r {
             let want = format!("0x{}", hex(&x.as_ssz_bytes()));
             ctx.out.r("C18", "serde", *st == want, &["serialize_is_0x_hex_of_ssz", "serde_ser", &ks, &val]);
+            // the same through a serializer that is not human readable, and through deserializers that hand out an
+            // owned string or read from a reader (the form must not depend on the data format)
+            let mut rec = Rec(None);
+            let _ = serde::Serialize::serialize(&x, &mut rec);
+            ctx.out.r("C18", "serde", rec.0.as_deref() == Some(want.as_str()), &["serialize_is_0x_hex_for_any_serializer", "serde_ser", &ks, &val]);
+            let txt_esc = format!("\"\\u0030{}\"", &want[1..]);
+            let back3: Result<B, _> = serde_json::from_str(&txt_esc);
+            ctx.out.r("C18", "serde", matches!(&back3, Ok(y) if *y == x), &["deserialize_from_escaped_literal", "serde_ser", &ks, &val]);
+            let back4: Result<B, _> = serde_json::from_reader(std::io::Cursor::new(format!("\"{}\"", want).into_bytes()));
+            ctx.out.r("C18", "serde", matches!(&back4, Ok(y) if *y == x), &["deserialize_from_reader", "serde_ser", &ks, &val]);
             let back: Result<B, _> = serde_json::from_value(serde_json::Value::String(st.clone()));
             ctx.out.r("C18", "serde", matches!(&back, Ok(y) if *y == x), &["serde_roundtrip", "serde_ser", &ks, &val]);
             // through the text layer as well
@@ -1103,6 +1184,25 @@ pub fn run_arb<B: BK + for<'a> arbitrary::Arbitrary<'a>>(ctx: &mut Ctx) {
             let mut u = arbitrary::Unstructured::new(&d);
             B::arbitrary(&mut u)
         }));
+        // the provided method used for the last field of derived types and by fuzz targets
+        let r2 = catch_unwind(AssertUnwindSafe(|| B::arbitrary_take_rest(arbitrary::Unstructured::new(&d))));
+        {
+            let s2 = match &r2 {
+                Ok(Ok(x)) => format!("ok {} {}", bits_str(x.bits_().into_iter()), x.len_()),
+                Ok(Err(_)) => "err".into(),
+                Err(_) => "panic".into(),
+            };
+            ctx.out.m("arb", &s2, &["arb", &ks, &hex(&d)]);
+            ctx.out.r("C20", "arb", r2.is_ok(), &["arbitrary_take_rest_no_panic", "arb", &ks, &hex(&d)]);
+            if let Ok(Ok(x)) = &r2 {
+                let rt = catch_unwind(AssertUnwindSafe(|| B::from_ssz_bytes(&x.as_ssz_bytes())));
+                let sl = x.slice_();
+                let clean = sl.len() == std::cmp::max(1, (x.len_() + 7) / 8) && (x.len_()..sl.len() * 8).all(|i| sl[i / 8] & (1 << (i % 8)) == 0);
+                let valid = kind.len_ok(x.len_()) && clean && matches!(&rt, Ok(Ok(y)) if y == x);
+                ctx.out.r("C20", "arb", valid, &["arbitrary_take_rest_value_is_valid", "arb", &ks, &hex(&d)]);
+                ctx.out.r("C13", "arb", kind.len_ok(x.len_()) && clean, &["arbitrary_take_rest_value_is_valid", "arb", &ks, &hex(&d)]);
+            }
+        }
         let s = match &r {
             Ok(Ok(x)) => format!("ok {} {}", bits_str(x.bits_().into_iter()), x.len_()),
             Ok(Err(_)) => "err".into(),
@@ -1124,6 +1224,30 @@ pub fn run_arb<B: BK + for<'a> arbitrary::Arbitrary<'a>>(ctx: &mut Ctx) {
         ctx.out.r("C20", "arb", successes > 0, &["some_input_succeeds", "arb-reach", &ks]);
     }
     ctx.out.bump_by(&format!("arb.{}.ok", ks), successes);
+}
+
+/// capacities whose low 32 bits are zero (and other very large ones): generation must still be able to succeed.
+/// Only inputs with a small size word are used (the generator allocates `min(size word, N)` bytes)
+pub fn run_arb_extremes(ctx: &mut Ctx) {
+    use typenum::{U1099511627776, U4294967296};
+    fn one<N: Unsigned + Clone + 'static>(ctx: &mut Ctx, name: &str) {
+        let mut any = false;
+        for d in [vec![1u8, 0, 0, 0, 0, 0, 0, 0, 1], vec![1, 0, 0, 0, 0, 0, 0, 0, 3], vec![2, 0, 0, 0, 0, 0, 0, 0, 0xff, 1], vec![0u8; 8], vec![]] {
+            let r = catch_unwind(AssertUnwindSafe(|| {
+                let mut u = arbitrary::Unstructured::new(&d);
+                <BitList<N> as arbitrary::Arbitrary>::arbitrary(&mut u)
+            }));
+            ctx.out.r("C20", "arb", r.is_ok(), &["arbitrary_no_panic", "arb-extreme", name, &hex(&d)]);
+            if let Ok(Ok(x)) = &r {
+                any = true;
+                let rt = BitList::<N>::from_ssz_bytes(&x.as_ssz_bytes());
+                ctx.out.r("C20", "arb", matches!(&rt, Ok(y) if y == x), &["arbitrary_value_is_valid", "arb-extreme", name, &hex(&d)]);
+            }
+        }
+        ctx.out.r("C20", "arb", any, &["some_input_succeeds", "arb-extreme", name]);
+    }
+    one::<U4294967296>(ctx, "BL2^32");
+    one::<U1099511627776>(ctx, "BL2^40");
 }
 
 /// Calls `$f::<B>($ctx)` for every bitfield behaviour / capacity of the catalogue.
